@@ -1062,19 +1062,30 @@ class C17(PropBase):
                 "reporters by a one-pair journal and read off every printed position. (b) journals: parts that round up "
                 "while the exact total rounds down (children of one parent, one account over several transactions, "
                 "selector deltas) and random journals (1-3 commodities, optional '@'/'=' prices, optional account "
-                "selector) at a random scale, each also reported at scale 0..28 for the exact figures. non-trivial = a "
-                "figure has more decimals than max or fewer than min; distinct = sha256 of the implementation case line")
+                "selectors for the balance, register and balance-group report, random group-by) at a random scale, each "
+                "also reported at scale 0..28 for the exact figures. (c) register boundary journals: one account over "
+                "several transactions (twice in one transaction, two commodities, hidden rows) whose amounts are exact "
+                "midpoints while the running totals are not, whose running totals are midpoints while the amounts are "
+                "not, whose amounts round one way and the totals the other, totals that return to zero or round to zero "
+                "from below, amounts and totals of different stored scales (own precision of each figure); "
+                "balance-group boundary journals: the same chains posted to the children of one parent in 1-3 periods "
+                "(one transaction or several, same day or spread over days, so that the grouping decides which parts "
+                "meet), with selectors listing only the parts (deltas); scales 0/0, 28/28, min = max throughout. For "
+                "every journal the model's balance, register and balance-group figures at the case's scale are compared "
+                "with the real report texts row by row. non-trivial = a figure has more decimals than max or fewer than "
+                "min; distinct = sha256 of the implementation case line")
 
     def trusted_base(self):
         return super().trusted_base() + [
-            "report text is tokenised at blanks (widths and alignment are not part of the property); the register "
-            "report has no Lean model yet in this tree: its figures are covered by the fmt tie (amount and running "
-            "total positions) and by the python oracle, not by the journal-level tie",
+            "report text is tokenised at blanks (widths and alignment are not part of the property; a register line "
+            "whose 33+ character account name touches a negative figure is split with the known account names); "
+            "register and balance-group reports are modelled without price conversion (report commodity unset) and "
+            "with the report zone UTC",
             "python decimal (ROUND_HALF_UP) as the independent arithmetic of the oracle"]
 
     def assumptions(self):
-        return ["figures have a stored scale <= 28 (Dec.WF; established by Dec.ofToken and preserved by the kernel: "
-                "theorem figures_scale_le)",
+        return ["figures have a stored scale <= 28 (Dec.WF; established by Dec.ofToken and preserved by the kernels: "
+                "theorems fromIter_figures, register_figures)",
                 "0 <= min <= max <= 28 (Scale.WF; enforced by Scale::from, modelled as Scale.ofRaw, tied on rejected scales)"]
 
 
